@@ -113,6 +113,11 @@ class Ctx:
         }
 
 
+class AbortShard(Exception):
+    """Raised by a check after it has recorded a violation that leaves the process unusable (e.g. a deadlocked worker thread of the
+    library): the shard writes what it has and leaves with os._exit, without waiting for stuck threads."""
+
+
 class CaseTimeout(BaseException):
     """Raised inside a case by the per-case wall-clock watchdog (inconclusive, never a violation)."""
 
@@ -251,8 +256,12 @@ def shard_entry(argv):
                 res["crashed"] = errs[0]
         else:
             mod.shard_main(ctx)
-    except Exception:
-        res["crashed"] = traceback.format_exc()
+    except Exception as e:
+        # (this module runs as __main__ in a shard while the property modules import it as vmon.core: the class is matched by name)
+        if type(e).__name__ == "AbortShard":
+            res["aborted"] = True
+        else:
+            res["crashed"] = traceback.format_exc()
     for c in extra:
         ctx.evaluations += c.evaluations
         ctx.nontrivial |= c.nontrivial
@@ -267,6 +276,10 @@ def shard_entry(argv):
     res.update(ctx.result())
     with open(out, "w") as f:
         json.dump(res, f, default=repr)
+        f.flush()
+        os.fsync(f.fileno())
+    if res.get("aborted"):
+        os._exit(0)
 
 
 def read_known(prop):
